@@ -1207,6 +1207,11 @@ class SourceSpectrum(BaseSourceSpectrum):
                 'from {1}'.format(what, self._valid_z_types))
         self._z_type = what
 
+        # The flux scaling model depends on both redshift and its type;
+        # rebuild it if redshift is already set.
+        if hasattr(self, '_z'):
+            self.z = self._z
+
     def __str__(self):
         """Descriptive information of the spectrum."""
         return '{0} at z={1}\n{2}'.format(
